@@ -278,6 +278,8 @@ let run_line (line : string) =
         | ["requests"; u] -> M.QUnstakeRequests (p_str u)
         | ["ibcq"; sa; lim] -> M.QIbcQueue (p_opt p_n sa, p_opt p_n lim)
         | ["replyq"; sa; lim] -> M.QIbcReplyQueue (p_opt p_n sa, p_opt p_n lim)
+        | ["allreq"; sa; lim] -> M.QAllRequests (p_opt p_n sa, p_opt p_n lim)
+        | ["allreq2"; sa; lim] -> M.QAllRequestsV2 (p_opt p_n sa, p_opt p_n lim)
         | _ -> failwith ("bad query: " ^ line)) in
       let r = M.c_query (need_store ()) q in
       emit "res %s" (res_class r);
